@@ -10,12 +10,24 @@ PROPS = {
         assumed=['rustc desugaring of `<`/`==` operators to the trait methods verified here (R3)'],
         not_decided=[],
     ),
+    'C13': dict(
+        level='proof',
+        units=[('K', 'addr_prefix'), ('V', 'asn_set'), ('K', 'asn_set')],
+        technique='contract-based deductive verification: Kani function contracts (requires/ensures + proof_for_contract) and loop-free full-domain lemma harnesses on the real Prefix/MaxLenPrefix/RouteOrigin code; Verus contract on the extracted SmallAsnSet::from_iter; set-operation iterators bounded (Kani, <=2 elements per operand)',
+        level_text='Complete proofs (all 2^128 address bits, every length byte, all pairs/triples) of the constructor contracts, covers == range inclusion, and the total-order/eq/hash laws for Prefix, MaxLenPrefix and RouteOrigin on the compiled code; unbounded Verus proof that from_iter yields a strictly increasing vector with the same element set. The four merge iterators are only checked bounded and are not counted as proved.',
+        level_note='Trusted: Kani/CBMC, Verus/Z3; std slice::sort and Vec::dedup contracts; derive(Hash/Eq) expansion by rustc. Display/FromStr/serde text round trips are not decided (std::net parsing/formatting is outside both tools). Merge iterators: bounded only.',
+        assumed=['std::net::{Ipv4Addr,Ipv6Addr} <-> integer conversions as compiled by Kani (real std code, symbolically executed)',
+                 'Vec<Asn> as IntoIterator + collect() is the identity on the element sequence (R12 specialisation of from_iter to its Vec call shape)'],
+        not_decided=['text form parses back to the same value (Display/FromStr/serde of Prefix, MaxLenPrefix, Asn): std::net formatting/parsing and str slicing are outside Verus and too costly for CBMC',
+                     'SmallAsnSet union/intersection/difference/symmetric_difference beyond 2 elements per operand (Peekable state machines: rejected by Verus; bounded Kani only)',
+                     'SmallAsnSet::contains (slice::binary_search internals)'],
+    ),
 }
 
 _PENDING = 'contracts for this property are not built yet in this revision (work in progress; see DESIGN.md §5)'
 NOT_APPLICABLE = {
     'C01': _PENDING, 'C02': _PENDING, 'C03': _PENDING, 'C07': _PENDING, 'C09': _PENDING, 'C10': _PENDING,
-    'C12': _PENDING, 'C13': _PENDING, 'C14': _PENDING, 'C15': _PENDING, 'C17': _PENDING,
+    'C12': _PENDING, 'C14': _PENDING, 'C15': _PENDING, 'C17': _PENDING,
     'C04': 'quantifies over all byte strings into eleven decoders that are trees of bcder closures over bytes::Bytes (external crate); no function-level contract expresses "the whole parser returns", Verus cannot take that code and Kani does not terminate on Bytes (DESIGN.md §6)',
     'C05': 'built-object vs decoded-object agreement is a statement about the symmetry of bcder encoders and decoders across ten object types; not a per-function property of code within reach of Verus/Kani (DESIGN.md §6)',
     'C06': 'whole-history property of an async client/server exchange; contracts over one call cannot state "after any completed exchange", and neither tool has a scheduler model that survives tokio (DESIGN.md §6)',
